@@ -342,7 +342,65 @@ func runRegistryReentrant(c *ApCase, w *TraceWriter) {
 	w.Ev("regre", "rounds", c.N, "done", done, "ok", okRounds, "checked", int(atomic.LoadInt32(&checked)))
 }
 
+// runRegistryRepeat: ONE registration, many calls: values of the same dynamic type and of different types, a callback
+// whose verdict depends on the value (nil, nil, error, nil, error ...): every call reaches the callback with its own
+// argument and gets that call's verdict
+func runRegistryRepeat(c *ApCase, w *TraceWriter) {
+	defer func() {
+		apache.RegisterCheckTStruct(nil)
+		apache.RegisterThriftRead(nil)
+		apache.RegisterThriftWrite(nil)
+	}()
+	type msgA struct{ bad bool }
+	type msgB struct{ bad bool }
+	vals := []interface{}{&msgA{false}, &msgA{false}, &msgA{true}, &msgB{false}, &msgA{false}, &msgB{true}, &msgA{true}, msgA{true}, msgA{false}}
+	verdict := func(x interface{}) error {
+		switch m := x.(type) {
+		case *msgA:
+			if m.bad {
+				return errCb
+			}
+		case *msgB:
+			if m.bad {
+				return errCb
+			}
+		case msgA:
+			if m.bad {
+				return errCb
+			}
+		}
+		return nil
+	}
+	calls, idok, resok := 0, true, true
+	var last interface{}
+	apache.RegisterCheckTStruct(func(x interface{}) error { calls++; last = x; return verdict(x) })
+	rd := bufiox.NewBytesReader([]byte{1})
+	var sb []byte
+	wr := bufiox.NewBytesWriter(&sb)
+	rcalls, wcalls := 0, 0
+	apache.RegisterThriftRead(func(r bufiox.Reader, x interface{}) error { rcalls++; last = x; return verdict(x) })
+	apache.RegisterThriftWrite(func(wx bufiox.Writer, x interface{}) error { wcalls++; last = x; return verdict(x) })
+	for _, v := range vals {
+		for k, f := range []func() error{func() error { return apache.CheckTStruct(v) }, func() error { return apache.ThriftRead(rd, v) }, func() error { return apache.ThriftWrite(wr, v) }} {
+			last = nil
+			err := f()
+			if err != verdict(v) {
+				resok = false
+			}
+			if _, isPtr := v.(*msgA); isPtr && last != v {
+				idok = false
+			}
+			_ = k
+		}
+	}
+	w.Ev("regrep", "n", len(vals), "calls", calls, "rcalls", rcalls, "wcalls", wcalls, "idok", idok, "resok", resok)
+}
+
 func runRegistry(c *ApCase, w *TraceWriter) {
+	if c.Fn == "repeat" {
+		runRegistryRepeat(c, w)
+		return
+	}
 	if c.Fn == "concurrent" {
 		runRegistryConcurrent(c, w)
 		return
@@ -521,6 +579,7 @@ func genApCases(c *Ctx) []json.RawMessage {
 				if fn == "read" && reg && ce { // (once)
 					out = append(out, mustJSON(ApCase{Mode: "registry", Fn: "concurrent", N: 3000}))
 					out = append(out, mustJSON(ApCase{Mode: "registry", Fn: "reentrant", N: 300}))
+					out = append(out, mustJSON(ApCase{Mode: "registry", Fn: "repeat"}))
 				}
 			}
 		}
